@@ -4,5 +4,6 @@ CONSTANTS
   Horizon = 0
   AsFound_NaNExitsLoop = FALSE
   AsFound_DecorativeAfterAppend = FALSE
+  AsFound_NoSweepAtBigTolerance = FALSE
 POSTCONDITION AllConsumed
 CHECK_DEADLOCK FALSE
